@@ -269,7 +269,7 @@ class LessParser(object):
                     self.handle_error(err, p.lineno(1), 'W')
                     p[0] = None
             except ImportError as e:
-                self.handle_error(e, p)
+                self.handle_error(e, p.lineno(1))
         else:
             p[0] = Statement(list(p)[1:], p.lineno(1))
             p[0].parse(None)
